@@ -302,6 +302,8 @@ func (ip *Interp) show(v Value) string {
 			return "nil-ptr"
 		}
 		return "&" + ip.show(*v)
+	case runtimeError:
+		return "runtime error: " + v.msg
 	}
 	return fmt.Sprintf("%T", v)
 }
